@@ -110,6 +110,8 @@ pub fn run(seed: u64, n: usize, sink: &mut Sink) {
             sink.put(loco_step_case(format!("loco_step/{}/{}", t, i), st, "loco_step", &oracle_loco));
             made += 1;
         }
+        // the same accepted steps once more as a whole LocomotiveSimulation::walk, compared end to end
+        if let Some(c) = walk_case_loco(format!("loco_walk/{}", t), &steps) { sink.put(c); }
         t += 1;
     }
     let mut made = 0usize; let mut t = 0usize;
@@ -120,6 +122,7 @@ pub fn run(seed: u64, n: usize, sink: &mut Sink) {
             sink.put(consist_step_case(format!("consist_step/{}/{}", t, i), st, "consist_step", &oracle_consist));
             made += 1;
         }
+        if let Some(c) = walk_case_consist(format!("consist_walk/{}", t), &steps) { sink.put(c); }
         t += 1;
     }
 }
